@@ -692,15 +692,33 @@ func (r *Runner) cmd(ctx context.Context, cm syntax.Command) {
 				}
 			}
 		case *syntax.CStyleLoop:
+			// Like Bash, an arithmetic error in any of the three
+			// expressions stops the loop with exit status 1.
 			if y.Init != nil {
-				r.arithm(y.Init)
+				if _, ok := r.arithm(y.Init); !ok {
+					r.exit.code = 1
+					break
+				}
 			}
-			for y.Cond == nil || r.arithmTrue(y.Cond) {
+			for {
+				if y.Cond != nil {
+					n, ok := r.arithm(y.Cond)
+					if !ok {
+						r.exit.code = 1
+						break
+					}
+					if n == 0 {
+						break
+					}
+				}
 				if !r.exit.ok() || r.loopStmtsBroken(ctx, cm.Do) {
 					break
 				}
 				if y.Post != nil {
-					r.arithm(y.Post)
+					if _, ok := r.arithm(y.Post); !ok {
+						r.exit.code = 1
+						break
+					}
 				}
 			}
 		}
